@@ -192,3 +192,62 @@ func BoundArb6(P []byte) {
 		V.Assume(V.Implies(P[6] == 6, int(P[52]>>4) <= maxDOff))
 	}
 }
+
+// ICMPError4 builds an ICMP error answering probe pr the way a router does: a fresh outer header from a symbolic
+// responder (optWords 32-bit words of NOP/EOL options), ICMP type/code chosen by the caller, 4 unused bytes
+// symbolic, then quoteLen bytes of the probe with the fields a device may rewrite (TOS, TTL, header checksum)
+// replaced by fresh symbols, then `extra` symbolic bytes (padding + RFC 4884 extension objects).
+func ICMPError4(pr []byte, icmpType, icmpCode uint8, quoteLen, extra, optWords int) []byte {
+	resp := V.Bytes("responder", 4)
+	free := V.Bytes("outerfree", 7) // tos, id(2), ttl, checksum(2), flags byte (DF only)
+	hl := 20 + 4*optWords
+	total := hl + 8 + quoteLen + extra
+	p := make([]byte, 0, total)
+	p = append(p, byte(0x40|(hl/4)), free[0], byte(total>>8), byte(total), free[1], free[2], free[6]&0x40, 0, free[3], 1, free[4], free[5])
+	p = append(p, resp...)
+	p = append(p, pr[12:16]...) // addressed to the prober
+	for i := 0; i < optWords; i++ {
+		p = append(p, 1, 1, 1, 0) // NOP NOP NOP EOL
+	}
+	icmpFree := V.Bytes("icmpfree", 6)
+	p = append(p, icmpType, icmpCode, icmpFree[0], icmpFree[1], icmpFree[2], icmpFree[3], icmpFree[4], icmpFree[5])
+	q := append([]byte(nil), pr[:quoteLen]...)
+	qf := V.Bytes("quotedfree", 4)
+	q[1] = qf[0]
+	q[8] = qf[1]
+	q[10] = qf[2]
+	q[11] = qf[3]
+	p = append(p, q...)
+	if extra > 0 {
+		p = append(p, V.Bytes("extension", extra)...)
+	}
+	return p
+}
+
+// ICMPError6 builds an ICMPv6 error (type/code) quoting quoteLen bytes of probe pr; hop limit of the quote rewritten.
+func ICMPError6(pr []byte, icmpType, icmpCode uint8, quoteLen int) []byte {
+	resp := V.Bytes("responder", 16)
+	free := V.Bytes("outerfree", 5) // traffic class/flow (4 bytes, version forced), hop limit
+	plen := 8 + quoteLen
+	p := make([]byte, 0, 40+plen)
+	p = append(p, 0x60|(free[0]&0x0f), free[1], free[2], free[3], byte(plen>>8), byte(plen), 58, free[4])
+	p = append(p, resp...)
+	p = append(p, pr[8:24]...)
+	icmpFree := V.Bytes("icmpfree", 6)
+	p = append(p, icmpType, icmpCode, icmpFree[0], icmpFree[1], icmpFree[2], icmpFree[3], icmpFree[4], icmpFree[5])
+	q := append([]byte(nil), pr[:quoteLen]...)
+	q[7] = V.U8("quotedhop")
+	p = append(p, q...)
+	return p
+}
+
+// IP4Header builds a 20-byte IPv4 header for a direct reply (protocol proto) from src to dst with the remaining fields symbolic.
+func IP4Header(src, dst []byte, proto uint8, payloadLen int) []byte {
+	free := V.Bytes("ipfree", 6) // tos, id(2), ttl, checksum(2)
+	total := 20 + payloadLen
+	p := make([]byte, 0, total)
+	p = append(p, 0x45, free[0], byte(total>>8), byte(total), free[1], free[2], 0x40, 0, free[3], proto, free[4], free[5])
+	p = append(p, src...)
+	p = append(p, dst...)
+	return p
+}
